@@ -423,7 +423,7 @@ func clipSeq(s []string) []string {
 	return s
 }
 
-var knownSwitches = []string{"fallthrough-default-not-last", "label-in-case-clause", "shadow-loopvar", "invalid-utf8", "keyed-lit-compare-in-logic", "shift-count-deep-const"}
+var knownSwitches = []string{"fallthrough-default-not-last", "label-in-case-clause", "shadow-loopvar", "invalid-utf8", "keyed-lit-compare-in-logic", "shift-count-deep-const", "delete-big-uint-const"}
 
 func config(ctx *vf.Ctx) *progen.Config {
 	cfg := progen.DefaultConfig()
